@@ -101,14 +101,30 @@ func (s *segImpl) exec(op string) (out string) {
 	}()
 	ws := strings.Fields(op)
 	switch ws[0] {
+	case "app", "tear", "seal", "sealed", "last", "get":
+		if s.w == nil {
+			return "err nowriter"
+		}
+	case "sget":
+		if s.sr == nil {
+			return "err noreader"
+		}
+	case "file", "filehex", "mut", "trunc", "recover", "opensealed", "dump":
+		if s.name == "" {
+			return "err nofile"
+		}
+	}
+	switch ws[0] {
 	case "case":
 		return "case"
 	case "new":
 		info := mkSegInfo(ws[1], ws[2], ws[3], "0", ws[4], "0", ws[5], false)
 		s.name = segment.FileName(info)
 		s.disk.RemoveFile(s.name)
+		s.w = nil
 		w, err := s.filer.Create(info)
 		if err != nil {
+			s.name = ""
 			return segClass(err)
 		}
 		s.w = w
@@ -212,6 +228,7 @@ func (s *segImpl) exec(op string) (out string) {
 			s.name = segment.FileName(info)
 			s.disk.SetFileData(s.name, data)
 		}
+		s.w = nil
 		w, err := s.filer.RecoverTail(info)
 		if err != nil {
 			return segClass(err)
@@ -226,6 +243,7 @@ func (s *segImpl) exec(op string) (out string) {
 			s.name = segment.FileName(info)
 			s.disk.SetFileData(s.name, data)
 		}
+		s.sr = nil
 		r, err := s.filer.Open(info)
 		if err != nil {
 			return segClass(err)
@@ -639,12 +657,18 @@ func mutateFile(r *Rng, data []byte) []byte {
 		used = len(b)
 	}
 	at := func() int {
-		if r.Chance(3, 4) {
+		if used > len(b) {
+			used = len(b)
+		}
+		if used > 0 && r.Chance(3, 4) {
 			return r.Intn(used)
 		}
 		return r.Intn(len(b))
 	}
 	for k := 0; k < 1+r.Intn(3); k++ {
+		if len(b) == 0 {
+			break
+		}
 		switch r.Intn(9) {
 		case 0:
 			b[at()] ^= 1 << uint(r.Intn(8))
